@@ -10,6 +10,7 @@ import TinodeVerif.Driver.Gate
 import TinodeVerif.Driver.Calls
 import TinodeVerif.Driver.Files
 import TinodeVerif.Driver.Preview
+import TinodeVerif.Driver.Basic
 /-!
 Line-protocol driver. Usage:
   driver model    < ops.txt        > model.out     one output line per op line
@@ -130,6 +131,19 @@ partial def loopFiles (h : IO.FS.Stream) (out : IO.FS.Stream) (st : Files.FS) : 
     | some (st', o) => out.putStrLn o; loopFiles h out st'
     | none => out.putStrLn "bad-op"; loopFiles h out st
 
+partial def loopBasic (h : IO.FS.Stream) (out : IO.FS.Stream) (st : Basic.St) : IO Unit := do
+  let line ← h.getLine
+  if line.isEmpty then return ()
+  let l := if line.endsWith "\n" then (line.dropEnd 1).toString else line
+  let ws := Wire.words l
+  if ws.isEmpty then
+    out.putStrLn ""
+    loopBasic h out st
+  else
+    match Driver.Basic.step st ws with
+    | some (st', o) => out.putStrLn o; loopBasic h out st'
+    | none => out.putStrLn "bad-op"; loopBasic h out st
+
 partial def loop (h : IO.FS.Stream) (out : IO.FS.Stream) (f : String → String) : IO Unit := do
   let line ← h.getLine
   if line.isEmpty then return ()
@@ -147,4 +161,5 @@ def main (args : List String) : IO UInt32 := do
   | ["gate"] => loopGate stdin stdout {}; stdout.flush; return 0
   | ["calls"] => loopCalls stdin stdout {}; stdout.flush; return 0
   | ["files"] => loopFiles stdin stdout {}; stdout.flush; return 0
+  | ["basic"] => loopBasic stdin stdout []; stdout.flush; return 0
   | _ => IO.eprintln "usage: driver model|verdict"; return 2
